@@ -3,6 +3,7 @@ package main
 import (
 	"fmt"
 	"go/types"
+	"strconv"
 
 	"golang.org/x/tools/go/ssa"
 	"sort"
@@ -362,34 +363,53 @@ func (v AV) writeKey(b *strings.Builder) { v.writeKeyM(b, nil) }
 
 // writeKeyM renders v with heap object ids passed through m (canonical numbering).
 func (v AV) writeKeyM(b *strings.Builder, m func(int) int) {
-	fmt.Fprintf(b, "%c%x.%d.%d", v.k, uint32(v.atoms), v.tri, v.fbits)
+	var buf [24]byte
+	wi := func(n int64) { b.Write(strconv.AppendInt(buf[:0], n, 36)) }
+	b.WriteByte(v.k)
+	wi(int64(v.atoms))
+	b.WriteByte('.')
+	wi(int64(v.tri)<<4 | int64(v.fbits))
 	if v.nk {
-		fmt.Fprintf(b, "n%d", v.n)
+		b.WriteByte('n')
+		wi(v.n)
 	}
 	if v.pos {
 		b.WriteByte('+')
 	}
 	if v.sk {
-		fmt.Fprintf(b, "s%q", v.s)
+		b.WriteByte('s')
+		b.WriteString(strconv.Quote(v.s))
 	}
 	if v.obj != 0 || v.k == 'A' {
 		id := v.obj
 		if m != nil && id != 0 {
 			id = m(id)
 		}
-		fmt.Fprintf(b, "o%d.%d", id, v.idx)
+		b.WriteByte('o')
+		wi(int64(id))
+		b.WriteByte('.')
+		wi(int64(v.idx))
 	}
 	if v.src != "" {
-		fmt.Fprintf(b, "<%s%c", v.src, v.link)
+		b.WriteByte('<')
+		b.WriteString(v.src)
+		b.WriteByte(v.link)
 	}
 	if v.bad {
 		b.WriteByte('!')
 	}
 	if v.prov != "" {
-		b.WriteString("@" + string(v.prov))
+		b.WriteByte('@')
+		b.WriteString(string(v.prov))
 	}
 	for _, f := range v.facts {
-		fmt.Fprintf(b, "{%s:%x:%x}", f.src, uint32(f.ifT), uint32(f.ifF))
+		b.WriteByte('{')
+		b.WriteString(f.src)
+		b.WriteByte(':')
+		wi(int64(f.ifT))
+		b.WriteByte(':')
+		wi(int64(f.ifF))
+		b.WriteByte('}')
 	}
 	if len(v.tup) > 0 {
 		b.WriteByte('(')
